@@ -34,6 +34,7 @@ type Profile struct {
 	Closed                         bool // closed-system environment (C15)
 	IdenticalPods                  bool // all pods of a workload identical (always true today)
 	GPUNodesOnly                   bool // every node has GPUs
+	NoBindFailures                 bool // the binder model never fails a request
 }
 
 func DefaultProfile() Profile {
@@ -115,6 +116,9 @@ func GenWorld(t *rapid.T, pf Profile) *World {
 	for i := 0; i < n; i++ {
 		sc := CycleScript{BindMode: pickInt(t, "bindMode", 0, 0, 0, 2, 1), KeepRequests: chance(t, 5, "keepRequests"),
 			TermLinger: pickInt(t, "termLinger", 0, 0, 1, 2), Salt: between(t, 0, 99, "salt"), RecreateEvicted: pf.Closed}
+		if pf.NoBindFailures {
+			sc.BindMode = pickInt(t, "bindModeOk", 0, 0, 1)
+		}
 		if pf.Closed {
 			sc.BindMode = 0
 			sc.TermLinger = pickInt(t, "closedLinger", 0, 0, 1)
@@ -464,6 +468,39 @@ func genTemplate(t *rapid.T, pf Profile, w *World) Pod {
 func genGroups(t *rapid.T, pf Profile, w *World) {
 	leaves := w.LeafQueues()
 	pl := newPlacer(w)
+	// running pods also respect queue limits and non-preemptible quota, as a real history would have
+	tree := w.QueueTree()
+	qAll, qNP := map[string][3]float64{}, map[string][3]float64{}
+	admit := func(g *Group, req Request, node string) bool {
+		pre := true
+		wl := (&World{Groups: []Group{*g}, PriorityClasses: w.PriorityClasses}).Workloads()[g.Name]
+		if wl != nil {
+			pre = wl.Preemptible
+		}
+		ch := Charge(req, pl.caps[node])
+		chain := Chain(tree, g.Queue)
+		for _, q := range chain {
+			for r := 0; r < 3; r++ {
+				if ch[r] > 0 && q.Limit[r] >= 0 && qAll[q.Name][r]+ch[r] > q.Limit[r]+1e-9 {
+					return false
+				}
+				if ch[r] > 0 && !pre && q.Deserved[r] >= 0 && qNP[q.Name][r]+ch[r] > q.Deserved[r]+1e-9 {
+					return false
+				}
+			}
+		}
+		for _, q := range chain {
+			a, n := qAll[q.Name], qNP[q.Name]
+			for r := 0; r < 3; r++ {
+				a[r] += ch[r]
+				if !pre {
+					n[r] += ch[r]
+				}
+			}
+			qAll[q.Name], qNP[q.Name] = a, n
+		}
+		return true
+	}
 	n := between(t, 1, pf.MaxGroups, "nGroups")
 	for gi := 0; gi < n; gi++ {
 		g := Group{Name: fmt.Sprintf("j%d", gi), Queue: leaves[between(t, 0, len(leaves)-1, "queue")],
@@ -562,7 +599,7 @@ func genGroups(t *rapid.T, pf Profile, w *World) {
 			p.State = Pending
 			if state == Running && pi < runningCount {
 				req := PodRequest(BuildPod(&g, &p, stubNow))
-				if node, groups, ok := pl.place(req, start, p.Name); ok {
+				if node, groups, ok := pl.place(req, start, p.Name); ok && admit(&g, req, node) {
 					p.State, p.Node, p.Groups = Running, node, groups
 					if termMode == 1 || (termMode == 2 && pi == 0) {
 						p.State = Terminating
